@@ -166,7 +166,7 @@ def cpp_statics(schema):
     try:
         ebs = {}
         import subprocess
-        p = subprocess.run([full.exe], input=b'consts\n', stdout=subprocess.PIPE, stderr=subprocess.PIPE, timeout=60)
+        p = subprocess.run([full.exe], input=b'consts\n', stdout=subprocess.PIPE, stderr=subprocess.PIPE, timeout=600)
         for l in p.stdout.decode().splitlines():
             if l.startswith('C '):
                 _, name, val = l.split()
